@@ -36,7 +36,7 @@ ZeroContexts == {"local-zero", "global-zero", "param", "result", "field", "slice
                  "ptr-deref", "multi-result", "method-receiver-field", "defer-arg", "range", "nested-closure"}
 InitContexts == {"local-init", "global-init", "append-elem", "iface-map-value", "struct-literal-field", "assign-through-ptr"}
 \* calls whose results are discarded: the program only has to compile and reach its last statement
-DiscardContexts == {"defer-result", "defer-method-result", "defer-closure-result", "discard-result"}
+DiscardContexts == {"defer-result", "defer-method-result", "defer-closure-result", "discard-result", "empty-loop", "empty-loop-call"}
 Contexts == ZeroContexts \cup InitContexts \cup DiscardContexts \cup {"eq-self"}
 
 WellTyped(t, c) == WellFormed(t) /\ (c = "eq-self" => Comparable(t))
